@@ -46,3 +46,9 @@ pub fn ln_stub(x: f32) -> f32 {
 pub fn fshobst_stub(_m: &bemodel::Model) -> bemodel::kani_models::BTreeMap<bemodel::Uuid, f32> {
     bemodel::kani_models::BTreeMap::new()
 }
+
+/// `<Uuid as PartialEq>::eq` compares the 16 bytes with memcmp (a 16-iteration loop in CBMC's model);
+/// the stub compares the same 128 bits as one integer: identical meaning, no loop.
+pub fn uuid_eq_stub(a: &bemodel::Uuid, b: &bemodel::Uuid) -> bool {
+    a.as_u128() == b.as_u128()
+}
